@@ -484,9 +484,9 @@ func genVrunCases(f lib.Flags) []vrunCase {
 		L     int
 	}
 	cfgs := []cfg{
-		{"class", false, "10", f.N(5, 6)}, {"eq", false, "10", f.N(4, 6)}, {"near", false, "10", f.N(4, 5)},
-		{"never", false, "10", f.N(3, 5)}, {"class", false, "-", f.N(4, 5)}, {"eq", true, "10", f.N(4, 5)},
-		{"class", true, "-", f.N(3, 4)},
+		{"class", false, "10", f.N(6, 7)}, {"eq", false, "10", f.N(5, 6)}, {"near", false, "10", f.N(5, 6)},
+		{"never", false, "10", f.N(4, 5)}, {"class", false, "-", f.N(5, 6)}, {"eq", true, "10", f.N(5, 6)},
+		{"class", true, "-", f.N(4, 5)},
 	}
 	for _, g := range cfgs {
 		for n := 1; n <= g.L; n++ {
@@ -528,7 +528,7 @@ func genVrunCases(f lib.Flags) []vrunCase {
 
 func runValuePipeline(f lib.Flags, res *lib.Result, drv *lib.Driver) {
 	tie := res.Tie("value-pull-pipeline", "K1",
-		"the REAL resource.Value with one lossy Pull subscriber, end to end (Set -> bus -> DropExcess -> Pull's forwarder with read mask and equivalence -> consumer), one move at a time (w:<value> = Set, d = the consumer receives once; after every move the harness waits until the forwarder has caught up) vs the model's vstepF machine scheduled greedily: ALL move sequences up to length L (3..6 by configuration) over 3 values (two of them equivalent) + receive, for the equivalences never/eq(cmp.Equal)/class/near(non-transitive), with and without a read mask, with a seed and updates-only; plus random longer ones; compared: what every receive yields and what a final drain yields; non-trivial = at least two writes; distinct = (equivalence, mask, seed, moves)")
+		"the REAL resource.Value with one lossy Pull subscriber, end to end (Set -> bus -> DropExcess -> Pull's forwarder with read mask and equivalence -> consumer), one move at a time (w:<value> = Set, d = the consumer receives once; after every move the harness waits until the forwarder has caught up) vs the model's vstepF machine scheduled greedily: ALL move sequences up to length L (4..6 quick, 5..7 thorough, by configuration) over 3 values (two of them equivalent) + receive, for the equivalences never/eq(cmp.Equal)/class/near(non-transitive), with and without a read mask, with a seed and updates-only; plus random longer ones; compared: what every receive yields and what a final drain yields; non-trivial = at least two writes; distinct = (equivalence, mask, seed, moves)")
 	mon := res.Monitor("value-pull-latest", "on the same runs, independent of the model: Set never blocks or fails; the received values are a subsequence of seed+writes as the read mask shows them; no value equivalent to the one delivered just before it; after a final drain the last received value IS the most recent value or is equivalent to it under the configured equivalence (nil equivalence included, monitor only); distinct = the case; non-trivial = something was dropped")
 	cases := genVrunCases(f)
 	lines := make([]string, len(cases))
